@@ -11,6 +11,10 @@ package domainmatcher
 //@ spec func terminalS(n *labelNode, label []byte) bool = has(n.s, padArray(label, 24, 23)) && n.s[padArray(label, 24, 23)] == nil
 //@ spec func terminalL(n *labelNode, label []byte) bool = has(n.l, label) && n.l[label] == nil
 
+//@ spec func terminal(n *labelNode, label []byte) bool = len(label) < 24 ? terminalS(n, label) : terminalL(n, label)
+//@ spec func absent(n *labelNode, label []byte) bool = len(label) < 24 ? !has(n.s, padArray(label, 24, 23)) : !has(n.l, label)
+//@ spec func inner(n *labelNode, label []byte) bool = len(label) < 24 ? has(n.s, padArray(label, 24, 23)) && n.s[padArray(label, 24, 23)] != nil : has(n.l, label) && n.l[label] != nil
+
 //@ func (n *labelNode) GetChild(label []byte) (child *labelNode, ok bool)
 //@   props C11
 //@   requires n != nil
@@ -54,8 +58,25 @@ package domainmatcher
 //@   props C11
 //@   requires m != nil
 //@   modifies field(domainmatcher.labelNode), field(domainmatcher.DomainMatcher), field(domainmatcher.RegexpMatcher), maps(domainmatcher.labelNode)
+// the insertion walk mirrors the lookup: down from the rightmost label, one step per non-empty label, each in the
+// node the previous step reached; the leftmost label becomes the entry, the others inner nodes; an entry already
+// on the way (a broader rule) ends the walk and stays an entry; no label at all is the root entry
+//@   callsite GetChild: [C11:looks-before-it-descends] i > 0 && arg0 == currentNode && arg1 == labels[i]
+//@   callsite GetOrAddChild: [C11:inner-labels-become-inner-nodes-in-order] i > 0 && arg0 == currentNode && arg1 == labels[i]
+//@   callsite AddLeaf: [C11:the-leftmost-label-becomes-the-entry] i == 0 && arg0 == currentNode && arg1 == labels[0]
+//@   ensures [C11:root-entry-stays] old(m.rootMatched) ==> m.rootMatched
+//@   ensures [C11:no-label-is-the-root-entry] !old(m.rootMatched) && forall(k, 0, len(labels), len(labels[k]) == 0) ==> m.rootMatched
+//@   ensures [C11:a-label-is-not-the-root-entry] !old(m.rootMatched) && exists(k, 0, len(labels), len(labels[k]) > 0) ==> !m.rootMatched
+//@   ensures [C11:single-label-entry] !old(m.rootMatched) && len(labels) == 1 && len(labels[0]) > 0 ==> terminal(&m.root, labels[0])
+//@   ensures [C11:broader-entry-kept] !old(m.rootMatched) && len(labels) >= 2 && len(labels[len(labels) - 1]) > 0 && old(terminal(&m.root, labels[len(labels) - 1])) ==> terminal(&m.root, labels[len(labels) - 1])
 //@   loop 1:
 //@     invariant currentNode != nil && -1 <= i && i < len(labels)
+//@     invariant [C11:only-empty-labels-so-far] !hasLabel ==> currentNode == &m.root && forall(k, i + 1, len(labels), len(labels[k]) == 0)
+//@     invariant [C11:saw-a-label] hasLabel ==> exists(k, i + 1, len(labels), len(labels[k]) > 0)
+//@     invariant !m.rootMatched
+//@     invariant [C11:single] len(labels) == 1 && len(labels[0]) > 0 && i < 0 ==> terminal(&m.root, labels[0])
+//@     invariant [C11:untouched-before-the-first-step] len(labels) >= 1 && i == len(labels) - 1 ==> terminal(&m.root, labels[len(labels) - 1]) == old(terminal(&m.root, labels[len(labels) - 1]))
+//@     invariant [C11:went-on-only-past-a-non-entry] len(labels) >= 2 && i < len(labels) - 1 && len(labels[len(labels) - 1]) > 0 ==> !old(terminal(&m.root, labels[len(labels) - 1]))
 //@     decreases i + 1
 
 //@ func (m *DomainMatcher) Match(n []byte) (ok bool)
@@ -63,6 +84,27 @@ package domainmatcher
 //@   requires m != nil
 //@   modifies nothing
 //@   ensures [C11:root] m.rootMatched ==> ok
+// the first level of the suffix walk, spelled out: an entry that IS the rightmost label of the name matches the name
+// and everything beneath it; no entry at all for that label means no match; a name that cannot be scanned, or has
+// no label, matches only the root entry. The walk goes down from the rightmost label, one label per step, each
+// looked up in the node the previous step reached.
+//@   ghost gErr error = nil
+//@   aftercall Err: gErr = ret0
+//@   ensures [C11:entry-for-the-rightmost-label-matches-everything-beneath] !m.rootMatched && gErr == nil && len(final(labels)) >= 1 && terminal(&m.root, final(labels)[len(final(labels)) - 1]) ==> ok
+//@   ensures [C11:no-entry-for-the-rightmost-label-no-match] !m.rootMatched && len(final(labels)) >= 1 && absent(&m.root, final(labels)[len(final(labels)) - 1]) ==> !ok
+//@   ensures [C11:unscannable-or-empty-name-no-match] !m.rootMatched && (gErr != nil || len(final(labels)) == 0) ==> !ok
+//@   callsite GetChild: [C11:walks-down-from-the-rightmost-label-one-step-at-a-time] arg0 == currentNode && arg1 == labels[i]
+// and the walk as a whole: no label is skipped, it stops only where a label is missing or is an entry (or the name
+// is used up), and the name matches iff the last label looked up is an entry
+//@   ghost nStep int = 0
+//@   ghost gCh *labelNode = nil
+//@   ghost gOk bool = false
+//@   oncall GetChild: nStep = nStep + 1
+//@   aftercall GetChild: gCh = ret0
+//@   aftercall GetChild: gOk = ret1
+//@   callsite GetChild: [C11:no-label-skipped] nStep == len(labels) - 1 - i
+//@   ensures [C11:match-iff-the-walk-ends-on-an-entry] !m.rootMatched && gErr == nil && nStep >= 1 ==> ok == (gCh == nil && gOk)
+//@   ensures [C11:walk-stops-only-at-a-missing-label-an-entry-or-the-end-of-the-name] !m.rootMatched && gErr == nil && nStep >= 1 && gCh != nil ==> nStep == len(final(labels))
 //@   loop 1:
 //@     modifies scanner.label, scanner.labelOff, scanner.off, scanner.err, obj(labels)
 //@     invariant sameSlice(scanner.n, n, 0, len(n)) && 0 <= scanner.off && scanner.off <= len(n)
@@ -70,6 +112,8 @@ package domainmatcher
 //@     decreases len(n) - scanner.off
 //@   loop 2:
 //@     invariant currentNode != nil && -1 <= i && i < len(labels)
+//@     invariant [C11:first-step] i == len(labels) - 1 ? currentNode == &m.root : inner(&m.root, labels[len(labels) - 1])
+//@     invariant [C11:steps] nStep == len(labels) - 1 - i && (nStep >= 1 ==> gCh == currentNode) && gErr == nil
 //@     decreases i + 1
 
 //@ func (m *FullMatcher) Match(n []byte) (ok bool)
